@@ -97,16 +97,16 @@ var reflectSet = map[string]bool{
 
 // inPlaceSorters: functions that reorder the elements of their first argument.
 var inPlaceSorters = map[string]string{
-	"sort.Strings":       "sorts x in place",
-	"sort.Ints":          "sorts x in place",
-	"sort.Float64s":      "sorts x in place",
-	"sort.Slice":         "sorts x in place",
-	"sort.SliceStable":   "sorts x in place",
-	"slices.Sort":        "sorts x in place",
-	"slices.SortFunc":    "sorts x in place",
+	"sort.Strings":          "sorts x in place",
+	"sort.Ints":             "sorts x in place",
+	"sort.Float64s":         "sorts x in place",
+	"sort.Slice":            "sorts x in place",
+	"sort.SliceStable":      "sorts x in place",
+	"slices.Sort":           "sorts x in place",
+	"slices.SortFunc":       "sorts x in place",
 	"slices.SortStableFunc": "sorts x in place",
-	"slices.Reverse":     "reverses x in place",
-	"math/rand.Shuffle":  "permutes through the swap callback",
+	"slices.Reverse":        "reverses x in place",
+	"math/rand.Shuffle":     "permutes through the swap callback",
 }
 
 // closure of a set of aggregate-snapshot locations under struct-copy edges.
